@@ -226,7 +226,7 @@ def compact_samples(ctx):
             reps = e["out"][k:] if e["kind"] == "icpt" else e["out"]
             evs.append({"a": "batch", "kind": e["kind"], "k": k, "n": e["n"], "full": e["full"],
                         "first_seq": e["media"][0]["seq"] if k else None,
-                        "wire_len_minus_12_by_packet": [len(m["pl"]) + m["ps"] + 4 * len(m["csrc"]) for m in e["media"][:12]],
+                        "payload_len_padding_by_packet": [[len(m["pl"]), m["ps"]] for m in e["media"][:12]],
                         "repairs": len(reps),
                         "first_repair": ({"seq": reps[0]["seq"], "pt": reps[0]["pt"], "ssrc": reps[0]["ssrc"],
                                           "payload_first_32": reps[0]["pl"][:32], "payload_len": len(reps[0]["pl"])}
